@@ -40,6 +40,7 @@ def jobs(tier, seed):
         for target in range(4 + 3 + 1):
             js.append(dict(name='preds_succs3_%d' % target, func='job_preds_succs', kwargs=dict(tier=tier, target=target, trips=3, maint=1)))
     js.append(dict(name='network_new', func='job_network_new', kwargs=dict(tier=tier, trips=2, maint=1)))
+    js.append(dict(name='network_new seats<capacity', func='job_network_new', kwargs=dict(tier=tier, trips=2, maint=0, caps=(7, 3))))
     if tier == 'thorough':
         js.append(dict(name='network_new_2types', func='job_network_new', kwargs=dict(tier=tier, trips=3, maint=1, two_types=True)))
     return js
@@ -218,11 +219,11 @@ def job_preds_succs(name, tier, target, trips, maint):
         J.sample('predecessors/successors(type 0, %s) as sets == {m : rule(m,n)} ; path: preds=%s succs=%s' % (T['id'], gp, gs))
     return J.result()
 
-def job_network_new(name, tier, trips, maint, two_types=False):
+def job_network_new(name, tier, trips, maint, two_types=False, caps=(5, 7)):
     """execute the real Network::new on the shape and compare field by field with netbuild's construction"""
     J = JobCtx(name, CRATES); ex = J.ex
     new = ex.resolve_fn('Network::new')
-    types = [dict(cap=5, seats=7, limit='sym'), dict(cap=11, seats=3, limit='sym')] if two_types else [dict(cap=5, seats=7, limit='sym')]
+    types = [dict(cap=caps[0], seats=caps[1], limit='sym'), dict(cap=11, seats=3, limit='sym')] if two_types else [dict(cap=caps[0], seats=caps[1], limit='sym')]
     def body():
         ex.pc_global = []; ex.inputs = {}
         sp = spec_for(tier, trips=trips, maint=maint, level='full', types=types, depots=[dict(allowed={t: 'sym' for t in range(len(types))})])
